@@ -334,6 +334,23 @@ def run(props, tier, seed):
                 except Exception as e:
                     a = 'error %s: %s' % (type(e).__name__, e)
                 b.check('C05.file-entry-point', a == expect, w, a)
+                # both frames on disk: the single-file and the several-files assertions
+                actp = os.path.join(top, 'actual-on-disk.' + ext)
+                (d2.to_parquet(actp) if ext == 'parquet' else d2.to_csv(actp, index=False))
+                for entry, call in (('assertOnDiskDataFrameCorrect', lambda: rt.assertOnDiskDataFrameCorrect(actp, refp)),
+                                    ('assertOnDiskDataFramesCorrect',
+                                     lambda: rt.assertOnDiskDataFramesCorrect([actp, actp], [refp, refp]))):
+                    w3 = dict(w, entry=entry)
+                    b.case(('file-on-disk', entry, ext, tuple(fbase), expect, repr(d2.iloc[1].tolist())))
+                    try:
+                        with quiet():
+                            call()
+                        a = 'pass'
+                    except Failed:
+                        a = 'fail'
+                    except Exception as e:
+                        a = 'error %s: %s' % (type(e).__name__, e)
+                    b.check('C05.file-entry-point', a == expect, w3, a)
     finally:
         ReferenceTest.regenerate.clear()
         ReferenceTest.regenerate.update(saved)
